@@ -71,6 +71,14 @@ MODELS = [
     ('top_union', Union[int, List[str], Z.Sub, None], [Z.Sub], [
         M(x=I(1)), Q(S('a')), ('s', 'tag:yaml.org,2002:null', 'null')]),
     ('top_any', Any, [], [M(k=Q(I(1), M(x=S('s'))))]),
+    # top-level collections of classes that are written as strings: nothing
+    # above them type-checks the elements a second time
+    ('top_dict_path', Dict[str, pathlib.Path], [], [
+        M(k=S('a/b'), j=S('c'))]),
+    ('top_dict_enum', Dict[str, Z.Color], [Z.Color], [
+        M(red=S('red'), k=B('true'))]),
+    ('top_list_enum', List[Union[Z.Color, int]], [Z.Color], [
+        Q(S('red'), B('true'), I(3))]),
     ('top_opt_date', Optional[datetime.date], [], [TS('2001-12-14')]),
     ('typed', Z.Typed, [Z.Typed, Z.Ident], [
         M(paths=Q(S('tmp')), names=Q(S('a')), m1=M(k=S('x')),
@@ -89,6 +97,9 @@ MODELS = [
           ('note', S('n')), ('extra-1', Q(I(1)))),
         M(customer_name=S('x'), items=Q(M(item_id=S('i'), price=F(1.0)))),
     ]),
+    ('extra_default', Z.ExtraHolder, [Z.ExtraHolder, Z.ExtraDef, Z.Alt], [
+        M(u=M(a=I(1), b=S('x'), more=I(2)), v=M(a=I(3))),
+    ]),
     # ---- C04: a registered class (Trap) that no typed position admits
     ('trap_loose', Z.Loose2, [Z.Loose2, Z.Sub, Z.Trap], [
         M(a=M(x=I(1)), b=M(x=I(2)), s=M(x=I(3)), l=Q(M(x=I(4))),
@@ -102,12 +113,16 @@ MODELS = [
     ('trap_typed', Z.Holder, [Z.Holder, Z.Sub, Z.Trap], [
         M(s=M(x=I(1)), ss=Q(M(x=I(2))), u=M(x=I(3))),
     ]),
+    # a savorize hook that renames keys: two spellings of one attribute
+    ('trap_sav', Z.TrapSav, [Z.TrapSav, Z.Sub, Z.Trap], [
+        M(a=M(x=I(1)), b_c=M(x=I(2)), n=I(1)),
+    ]),
 ]
 CORE = {m[0] for m in MODELS if not m[0].startswith('trap_')
-        and m[0] not in ('order', 'typed', 'req4', 'firm')}
-GROUP_C02 = (CORE - {'perm'}) | {'order', 'firm'}
+        and m[0] not in ('order', 'typed', 'req4', 'firm', 'extra_default')}
+GROUP_C02 = (CORE - {'perm'}) | {'order', 'firm', 'extra_default'}
 GROUP_C04 = {'trap_loose', 'trap_any', 'trap_dict', 'trap_typed', 'loose',
-             'top_any'}
+             'top_any', 'trap_sav'}
 MODEL_IDX = {m[0]: i for i, m in enumerate(MODELS)}
 
 _LOADERS = {}
@@ -133,10 +148,11 @@ def base_docs():
 BASES = base_docs()
 
 # '<<' is a real merge key (tag merge); '<<str' is the quoted string "<<"
-KEYS = ['zz', '<<', '_yatiml_extra', 'a', 'self', 'b', 'x', 'p', 's',
+KEYS = ['zz', '<<', '_yatiml_extra', 'a', 'b-c', 'self', 'b', 'x', 'p', 's',
         'center', 'radius', 'n', '{0} {x} %s', '<<str']
 VALS = ['1', 'abc', 'true', '', '{0} {x} %s', '1.5', '2001-12-14', '-', 'red',
-        '0x1F', '1_000', '.inf', '13', 'boom', 'null', '14', '15']
+        '0x1F', '1_000', '.inf', '13', 'boom', 'null', '14', '15', 'describe',
+        '__doc__', 'name']
 
 PY = 'tag:yaml.org,2002:python/'
 # (tag, value) pairs for replacement scalars: each core tag with a well-formed
@@ -213,50 +229,60 @@ def replacement(rsel: int, tag: str, lc):
         for k in PAYLOAD_KEYS], m, m)
 
 
-MUT_REPLACE, MUT_RETAG, MUT_DROP, MUT_DUP, MUT_ADD, MUT_SETVAL, MUT_NONE = \
-    range(7)
+MUT_REPLACE, MUT_RETAG, MUT_DROP, MUT_DUP, MUT_ADD, MUT_SETVAL, MUT_NONE, \
+    MUT_ALIAS = range(8)
 # slices: (base document, mutation group)
 GROUPS = [(MUT_REPLACE,), (MUT_ADD,),
-          (MUT_RETAG, MUT_DROP, MUT_DUP, MUT_SETVAL, MUT_NONE)]
+          (MUT_RETAG, MUT_DROP, MUT_DUP, MUT_SETVAL, MUT_NONE),
+          (MUT_ALIAS,)]
+NG = len(GROUPS)
 
 
 NSUB = 3
+BIG = 14         # documents with more nodes: every group is split by site
 
 
 def slice_of(s: int):
     """slice number -> (index into BASES, tuple of mutation kinds, site
-    residue class mod NSUB or None).  The REPLACE and ADD groups are split by site."""
+    residue class mod NSUB or None).  The REPLACE, ADD and ALIAS groups are
+    split by site."""
     sub = s % NSUB
-    g = (s // NSUB) % 3
-    return s // (3 * NSUB), GROUPS[g], (sub if g in (0, 1) else None)
+    g = (s // NSUB) % NG
+    si = s // (NG * NSUB)
+    split = g in (0, 1, 3) or BASES[si][2] > BIG
+    return si, GROUPS[g], (sub if split else None)
 
 
-def _slices(pred):
+def _slices(pred, groups=(0, 1, 2)):
     out = []
     for i, (mi, bi, n) in enumerate(BASES):
         if not pred(mi, bi, n):
             continue
-        for g in range(3):
-            subs = range(min(NSUB, n)) if g in (0, 1) else [0]
-            out += [(i * 3 + g) * NSUB + sub for sub in subs]
+        for g in groups:
+            subs = range(min(NSUB, n)) if g in (0, 1, 3) or n > BIG else [0]
+            out += [(i * NG + g) * NSUB + sub for sub in subs]
     return out
 
 
+G4 = (0, 1, 2, 3)      # with the ALIAS group (C01, C02, C04, C08)
 ALL_SLICES = _slices(lambda mi, bi, n: MODELS[mi][0] in CORE)
 QUICK_SLICES = _slices(lambda mi, bi, n: bi == 0 and MODELS[mi][0] in CORE)
-C02_SLICES = _slices(lambda mi, bi, n: MODELS[mi][0] in GROUP_C02)
+ALL_SLICES_A = _slices(lambda mi, bi, n: MODELS[mi][0] in CORE, G4)
+QUICK_SLICES_A = _slices(lambda mi, bi, n: bi == 0 and MODELS[mi][0] in CORE,
+                         G4)
+C02_SLICES = _slices(lambda mi, bi, n: MODELS[mi][0] in GROUP_C02, G4)
 C02_QUICK_SLICES = _slices(
-    lambda mi, bi, n: MODELS[mi][0] in GROUP_C02 and bi == 0)
-C04_SLICES = _slices(lambda mi, bi, n: MODELS[mi][0] in GROUP_C04)
+    lambda mi, bi, n: MODELS[mi][0] in GROUP_C02 and bi == 0, G4)
+C04_SLICES = _slices(lambda mi, bi, n: MODELS[mi][0] in GROUP_C04, G4)
 C04_QUICK_SLICES = _slices(
     lambda mi, bi, n: MODELS[mi][0] in GROUP_C04 and (
-        bi == 0 or MODELS[mi][0].startswith('trap_')))
+        bi == 0 or MODELS[mi][0].startswith('trap_')), G4)
 
 
 def slice_for(model: str, bi: int, group: int, sub: int = 0) -> int:
     for i, (mi, b, n) in enumerate(BASES):
         if MODELS[mi][0] == model and b == bi:
-            return (i * 3 + group) * NSUB + sub
+            return (i * NG + group) * NSUB + sub
     raise HarnessError(model)
 
 
@@ -267,7 +293,7 @@ class Limits:
     def __init__(self, quick: bool):
         self.rsel = QUICK_RSEL if quick else list(range(NRSEL))
         self.nvals = 5 if quick else len(VALS)
-        self.nkeys = 4 if quick else len(KEYS)
+        self.nkeys = 5 if quick else len(KEYS)
         self.nretags = 12 if quick else len(RETAGS)
 
 
@@ -325,6 +351,15 @@ def mutated(mi: int, bi: int, site: int, mut: int, rsel: int, tag: str,
         if not isinstance(node, yaml.ScalarNode) or vsel >= lim.nvals:
             return None
         node.value = pick(VALS, vsel)
+    elif mut == MUT_ALIAS:
+        # the node at `site` becomes an ALIAS of node number rsel: the very
+        # same node object, which is what PyYAML's composer produces
+        if rsel >= len(b.nodes) or rsel == site:
+            return None
+        target = b.nodes[pick(list(range(len(b.nodes))), rsel)]
+        if is_descendant(node, target):
+            return None         # an alias of an ancestor: a cycle (C08, C18)
+        docs.place(b, site, target)
     else:
         return None
     docs.layout(b.root)
@@ -354,8 +389,9 @@ def explore(sl: int, site: int, mut: int, rsel: int, tag: str, vsel: int,
         return None
     if sub is not None and site % NSUB != sub:
         return None
-    if MODELS[mi][0] == 'picky' and mut != MUT_ADD:
-        lim = FULL          # its interesting values are late in the palettes
+    if (MODELS[mi][0] == 'picky' or n <= 7) and mut != MUT_ADD:
+        lim = FULL          # interesting values are late in the palettes;
+        #                     small documents get the full palettes anyway
     b = mutated(mi, bi, site, mut, rsel, tag, vsel, ksel, lim)
     if b is None:
         return None
@@ -368,18 +404,21 @@ def explore(sl: int, site: int, mut: int, rsel: int, tag: str, vsel: int,
 
 
 MUTANT_PRE = """
-    pre: 0 <= site < 28 and 0 <= mut < 7 and 0 <= rsel < 90
+    pre: 0 <= site < 28 and 0 <= mut < 8 and 0 <= rsel < 90
     pre: 1 <= len(tag) <= 40 and tag != '!'
     pre: not tag.startswith('tag:yaml.org,2002:')
-    pre: 0 <= vsel < 17 and 0 <= ksel < 14
+    pre: 0 <= vsel < 20 and 0 <= ksel < 15
 """
 MUTANT_BOUND = (
-    'one slice per (model, base document, mutation group; REPLACE and ADD also '
-    'by site mod 3): every single-point mutation (7 kinds) at every node; '
+    'one slice per (model, base document, mutation group; REPLACE, ADD and '
+    'ALIAS also by site mod 3): every single-point mutation (8 kinds) at '
+    'every node, one of them ALIAS: the node becomes an alias of any other '
+    'node that is not one of its ancestors (the same node object, keys '
+    'included); '
     'replacement/added nodes: 37 (tag, value) scalar pairs, 4 collection '
     'shapes x 11 tags (incl. registered class names), 6 shapes with a FREE non-core tag, a merge payload mapping (quick: 24 of these '
-    '80); retag with the free tag or 21 (quick 10) palette tags; 17 (quick '
-    '4) palette values; 14 (quick 4) palette keys incl. a real merge key; quick tier: first base '
+    '80); retag with the free tag or 21 (quick 10) palette tags; 20 (quick '
+    '5; all for documents of <= 7 nodes) palette values; 15 (quick 5) palette keys incl. a real merge key; quick tier: first base '
     'document of each model')
 PIPELINE_ENCODED = [
     'yatiml.loader.LoadFunction.__call__', 'Loader.__init__',
